@@ -66,6 +66,7 @@ def valBeq : Val → Val → Bool
   | .st a, .st b => fsBeq a b
   | .prop o a, .prop p b => opBeq o p && valBeq a b
   | .en a, .en b => a == b
+  | .tup a, .tup b => valsBeq a b
   | _, _ => false
 def valsBeq : List Val → List Val → Bool
   | [], [] => true
@@ -100,6 +101,7 @@ theorem valBeq_refl : ∀ (v : Val), valBeq v v = true
   | .st a => by simp only [valBeq]; exact fsBeq_refl a
   | .prop o a => by simp only [valBeq, opBeq_refl, valBeq_refl a, Bool.and_self]
   | .en a => by simp [valBeq]
+  | .tup a => by simp only [valBeq]; exact valsBeq_refl a
 theorem valsBeq_refl : ∀ (vs : List Val), valsBeq vs vs = true
   | [] => by simp [valsBeq]
   | a :: as => by simp only [valsBeq, valBeq_refl a, valsBeq_refl as, Bool.and_self]
@@ -192,6 +194,27 @@ def bytesParam : Bytes := [97, 61, 49, 32, 91, 91, 120, 93, 32, 98, 61, 50, 32, 
 def tyMixed : Ty := .st [([97], .map .str)]
 def tyFirstImplicit : Ty := .st [([97], .st [([98], .opt (.map .str)), ([100], .opt .str)])]
 def tyParam : Ty := .st [([97], .str), ([98], .opt .str), ([99], .opt .str)]
+
+/-- `id=1 arr={ 1 2 3 }` -/
+def bytesTupleLong : Bytes := [105, 100, 61, 49, 32, 97, 114, 114, 61, 123, 32, 49, 32, 50, 32, 51, 32, 125]
+def keyId : Bytes := [105, 100]
+def keyArr : Bytes := [97, 114, 114]
+def tyTupleLong : Ty := .st [(keyId, .u8), (keyArr, .tup [.i32, .i32])]
+
+theorem tupleLong_differ : bytesDiffer tyTupleLong bytesTupleLong = true := by decide +kernel
+
+theorem tupleLong_parse :
+    TextTape.parse bytesTupleLong =
+      .ok [.unquoted ⟨18, keyId⟩, .unquoted ⟨15, [49]⟩, .unquoted ⟨13, keyArr⟩, .array 7 false, .unquoted ⟨7, [49]⟩,
+        .unquoted ⟨5, [50]⟩, .unquoted ⟨3, [51]⟩, .endTok 3] false := by
+  decide +kernel
+
+theorem tupleLong_lex :
+    (TextReader.sliceTokens bytesTupleLong).toks =
+      [.unquoted keyId, .op .eq, .unquoted [49], .unquoted keyArr, .op .eq, .open_, .unquoted [49], .unquoted [50],
+        .unquoted [51], .close] ∧
+    (TextReader.sliceTokens bytesTupleLong).out = .end_ := by
+  decide +kernel
 
 theorem mixed_differ : bytesDiffer tyMixed bytesMixed = true := by decide +kernel
 theorem firstImplicit_differ : bytesDiffer tyFirstImplicit bytesFirstImplicit = true := by decide +kernel
